@@ -103,8 +103,18 @@ MISSING = _Missing()
 
 
 class Interp:
-    def __init__(self, program: Program, decisions: list[int] | None = None, *, generic_strings: bool = False, max_steps: int = MAX_STEPS):
+    def __init__(self, program: Program, decisions: list[int] | None = None, *, generic_strings: bool = False, max_steps: int = MAX_STEPS, tunable_scale: int | None = None):
         from . import models  # late import: models needs Interp helpers
+
+        # tunables.py: integer literals of the analysed source that are parameters, not format constants
+        self.tunable_scale = tunable_scale
+        self.tunables_hit: set[str] = set()
+        self._tunable_index: dict[int, str] = {}
+        if tunable_scale is not None:
+            from . import tunables as _tun
+
+            self._tunable_index = _tun.index(program)
+            self._tunable_spec = _tun.SPEC_CONSTANTS
 
         self.program = program
         self.schema = program.schema
@@ -1830,6 +1840,11 @@ class Interp:
         v = node.value
         if v is Ellipsis:
             return ExtObj("Ellipsis")
+        if self.tunable_scale is not None and type(v) is int:
+            key = self._tunable_index.get(id(node))
+            if key is not None and key not in self._tunable_spec:
+                self.tunables_hit.add(key)
+                return self.tunable_scale
         return v
 
     def lookup_name(self, name: str, env: Env) -> Any:
@@ -2474,7 +2489,7 @@ def next_vector(decisions: list[int], arity: list[int]) -> list[int] | None:
     return None
 
 
-def explore(program: Program, scenario: Callable[[Interp], Any], *, max_paths: int = 20_000, generic_strings: bool = False, max_steps: int = MAX_STEPS):
+def explore(program: Program, scenario: Callable[[Interp], Any], *, max_paths: int = 20_000, generic_strings: bool = False, max_steps: int = MAX_STEPS, tunable_scale: int | None = None):
     """Enumerate every decision vector of ``scenario`` by deterministic re-execution.
 
     Yields (interp, outcome) with outcome = ('ok', value) | ('raise', PyRaise)."""
@@ -2484,7 +2499,7 @@ def explore(program: Program, scenario: Callable[[Interp], Any], *, max_paths: i
         n += 1
         if n > max_paths:
             raise BudgetExceeded(f"path budget {max_paths} exhausted")
-        it = Interp(program, vec, generic_strings=generic_strings, max_steps=max_steps)
+        it = Interp(program, vec, generic_strings=generic_strings, max_steps=max_steps, tunable_scale=tunable_scale)
         try:
             val = scenario(it)
             outcome: tuple = ("ok", val)
